@@ -120,3 +120,140 @@ Example C03_dec_nonvacuous :
   = [(0, 1%positive); (-40, 1%positive); (0, 1%positive); (0, 1%positive); (0, 1%positive);
      (0, 1%positive); (0, 1%positive)].
 Proof. vm_compute. repeat split. Qed.
+
+(* ---- Under rust_decimal rounding, WITH rounding: how far can the conservation
+   equation be off?  (Proofs/C03Dec.v)
+
+   For a history in the accumulation class of C01_rounding_error_accumulates
+   (the hypotheses are taken over verbatim: rows valid, [in_class k] on the
+   rows of the rounded and of the exact ledger - no superficial loss on either
+   side, equal share balances, non-registered affiliates, quantities <= 10^k,
+   rates <= 10, 2k+2 <= 28), at EVERY checkpoint of the ROUNDED ledger (the
+   first n rows it reports, n within both reports; in the class there are no
+   generated rows, so every prefix is a checkpoint):
+
+     | gains_dec - (proceeds - (costs + opening) + RoC + cost base held_dec) | <= n * cC k,
+     cC k = cR k + 10^k u(k+1) + u(2k+2) = 3.15 * 10^-(26-2k).
+
+   [sum_proceeds], [sum_costs], [sum_roc] are the sums of C03_conservation:
+   exact rational functions of the INPUT rows (and, for a return of capital, of
+   the share balance, which is not rounded in the class); [sum_gains] and
+   [total_acb (after ...)] are the rounded ledger's reported figures.
+
+   The bound is LINEAR in n, not quadratic as the route "rounded ledger within
+   (i+1) cR of the exact ledger (C01_rounding_error_accumulates), exact ledger
+   conserves (C03_conservation)" would give ((n(n+1)/2 + a n) cR for a
+   affiliates): the residual is the sum of the rows' own defects, and a row's
+   defect consists of the roundings of that row only - its figures are computed
+   from the rounded ledger's OWN previous cost base, and the unrounded figures
+   computed from that same cost base satisfy the equation exactly.  The
+   deviation carried over from earlier rows cancels.  n * cC k < (n(n+1)/2 + a n) * cR k
+   for every n >= 1, a >= 1 (3.15 n < 5.2 n). *)
+From ACB Require Import Proofs.DecRowError Proofs.DecAccumulate Proofs.C03Dec.
+Local Open Scope Qc_scope.
+Theorem C03_dec_residual_bound : forall (k : nat) init txs dsd od dse oe,
+  (2 * k + 2 <= 28)%nat ->
+  Forall (fun t => valid_tx t = true) txs ->
+  run dec init txs = (dsd, od) -> run exact init txs = (dse, oe) ->
+  in_class k dsd dse = true ->
+  forall n p, (n <= length dsd)%nat -> (n <= length dse)%nat -> p = firstn n dsd ->
+    let residual :=
+      sum_gains p
+      - (sum_proceeds p - (sum_costs p + total_acb (spec_init init)) + sum_roc (spec_init init) p
+         + total_acb (after (spec_init init) p)) in
+    - (QcZ (Z.of_nat n) * cC k) <= residual /\ residual <= QcZ (Z.of_nat n) * cC k.
+Proof.
+  intros k init txs dsd od dse oe Hk Hv Hd He Hc n p Hn1 Hn2 ->.
+  exact (C03Dec.dec_residual_bound k init txs dsd od dse oe Hk Hv Hd He Hc n Hn1 Hn2).
+Qed.
+Check C03_dec_residual_bound : forall (k : nat) init txs dsd od dse oe,
+  (2 * k + 2 <= 28)%nat ->
+  Forall (fun t => valid_tx t = true) txs ->
+  run dec init txs = (dsd, od) -> run exact init txs = (dse, oe) ->
+  in_class k dsd dse = true ->
+  forall n p, (n <= length dsd)%nat -> (n <= length dse)%nat -> p = firstn n dsd ->
+    let residual :=
+      sum_gains p
+      - (sum_proceeds p - (sum_costs p + total_acb (spec_init init)) + sum_roc (spec_init init) p
+         + total_acb (after (spec_init init) p)) in
+    - (QcZ (Z.of_nat n) * cC k) <= residual /\ residual <= QcZ (Z.of_nat n) * cC k.
+Print Assumptions C03_dec_residual_bound.
+
+(* the constant in closed form: cC 6 = 3.15e-14; and cC k = (63/52) cR k for
+   every k the theorem admits (k = 0..13) - the check computes the bound from
+   the extracted cR k (entry 2 of the dectransfer group) with this factor *)
+Theorem C03_dec_residual_constant :
+  cC 6 = Qcfrac 63 2000000000000000 /\
+  forallb (fun k => Qceqb (cC k * QcZ 52) (cR k * QcZ 63)) (seq 0 14) = true.
+Proof. exact (conj C03Dec.cC_6 C03Dec.cC_cR_ratio). Qed.
+Check C03_dec_residual_constant :
+  cC 6 = Qcfrac 63 2000000000000000 /\
+  forallb (fun k => Qceqb (cC k * QcZ 52) (cR k * QcZ 63)) (seq 0 14) = true.
+Print Assumptions C03_dec_residual_constant.
+
+(* THE INSTANCE the check's generic tolerance corresponds to (lib/props/c03.py
+   measures the residual against 1e-9): quantities below a million (k = 6),
+   rates at most 10: the residual stays below 1e-9 for the first 31746
+   checkpoints (31746 * 3.15e-14 = 9.99999e-10; 31747 * 3.15e-14 > 1e-9).
+   The quadratic route (one affiliate) reaches 1e-9 at n = 276: (276*277/2 + 276) * 2.6e-14 > 1e-9. *)
+Theorem C03_dec_residual_bound_million : forall init txs dsd od dse oe,
+  Forall (fun t => valid_tx t = true) txs ->
+  run dec init txs = (dsd, od) -> run exact init txs = (dse, oe) ->
+  in_class 6 dsd dse = true ->
+  forall n p, (Z.of_nat n <= 31746)%Z -> (n <= length dsd)%nat -> (n <= length dse)%nat -> p = firstn n dsd ->
+    let residual :=
+      sum_gains p
+      - (sum_proceeds p - (sum_costs p + total_acb (spec_init init)) + sum_roc (spec_init init) p
+         + total_acb (after (spec_init init) p)) in
+    - Qcfrac 1 1000000000 <= residual /\ residual <= Qcfrac 1 1000000000.
+Proof.
+  intros init txs dsd od dse oe Hv Hd He Hc n p Hn Hn1 Hn2 ->.
+  exact (C03Dec.dec_residual_bound_million init txs dsd od dse oe Hv Hd He Hc n Hn Hn1 Hn2).
+Qed.
+Check C03_dec_residual_bound_million : forall init txs dsd od dse oe,
+  Forall (fun t => valid_tx t = true) txs ->
+  run dec init txs = (dsd, od) -> run exact init txs = (dse, oe) ->
+  in_class 6 dsd dse = true ->
+  forall n p, (Z.of_nat n <= 31746)%Z -> (n <= length dsd)%nat -> (n <= length dse)%nat -> p = firstn n dsd ->
+    let residual :=
+      sum_gains p
+      - (sum_proceeds p - (sum_costs p + total_acb (spec_init init)) + sum_roc (spec_init init) p
+         + total_acb (after (spec_init init) p)) in
+    - Qcfrac 1 1000000000 <= residual /\ residual <= Qcfrac 1 1000000000.
+Print Assumptions C03_dec_residual_bound_million.
+
+(* Non-vacuity (k = 1, two affiliates, 8 rows): the six rows of
+   C01_rounding_error_accumulates_nonvacuous (per-share cost 10/3 at the first
+   sale) interleaved with a second affiliate buying 3 at 7 plus 1 commission and
+   selling 1 at 9 (per-share cost 22/3).  Both ledgers accept all eight rows,
+   the pair is in the class with k = 1; the exact ledger's residual is 0 at the
+   last checkpoint, the rounded ledger's is NOT, and (the theorem, evaluated) it
+   is within n * cC 1 at every one of the nine checkpoints n = 0..8. *)
+Local Open Scope Z_scope.
+Definition ex_c03dec : list tx := [
+  mk 100 (Buy (q 3 1) (q 3 1) (q 1 1) (q 1 1) (q 1 1)) default_aff;
+  mk 150 (Buy (q 3 1) (q 7 1) (q 1 1) (q 1 1) (q 1 1)) spouse;
+  mk 200 (Sell (q 1 1) (q 5 1) (q 0 1) (q 1 1) (q 1 1) None) default_aff;
+  mk 300 (Buy (q 2 1) (q 1 1) (q 0 1) (q 1 1) (q 1 1)) default_aff;
+  mk 400 (Roc (q 1 10) (q 1 1)) default_aff;
+  mk 500 (Sell (q 2 1) (q 4 1) (q 1 2) (q 1 1) (q 1 1) None) default_aff;
+  mk 550 (Sell (q 1 1) (q 9 1) (q 0 1) (q 1 1) (q 1 1) None) spouse;
+  mk 600 (Split (q 2 1) (q 1 1) false) default_aff ].
+Local Close Scope Z_scope.
+Definition c03_res (p : list delta) : Qc :=
+  sum_gains p - (sum_proceeds p - (sum_costs p + total_acb []) + sum_roc [] p + total_acb (after [] p)).
+Example C03_dec_residual_nonvacuous :
+  Forall (fun t => valid_tx t = true) ex_c03dec /\
+  match run dec None ex_c03dec, run exact None ex_c03dec with
+  | (dsd, None), (dse, None) =>
+      length dsd = 8%nat /\ length dse = 8%nat /\ in_class 1 dsd dse = true /\
+      this (c03_res dse) = this 0 /\
+      this (c03_res dsd) <> this 0 /\
+      forallb (fun n => Qcleb (- (QcZ (Z.of_nat n) * cC 1)) (c03_res (firstn n dsd))
+                        && Qcleb (c03_res (firstn n dsd)) (QcZ (Z.of_nat n) * cC 1)) (seq 0 9) = true
+  | _, _ => False
+  end.
+Proof.
+  split; [repeat constructor|].
+  vm_compute. repeat split; discriminate.
+Qed.
